@@ -56,7 +56,7 @@ def _run_isolated(mod, prog, res):
         traceback.print_exc()
 
 
-RESTRUCTURED = 18
+RESTRUCTURED = 16
 
 
 def _restructure_gate(prog, res):
@@ -67,7 +67,7 @@ def _restructure_gate(prog, res):
   the reference does not know, says more about the matcher than about the
   code: it is turned into an analysis error (exit 2, 'restructured') instead
   of a VIOLATION.  Realistic one-site regressions change a handful of
-  statements (max 16 over the 120 stored seeded changes); whole-function
+  statements (at most 16 over the stored seeded changes, 3 or fewer for most); whole-function
   rewrites are where every false report of the refactoring corpus came
   from."""
   import ast
